@@ -3,6 +3,7 @@ package vc
 import (
 	"go/ast"
 	"go/constant"
+	"go/token"
 	"go/types"
 	"strings"
 )
@@ -283,6 +284,8 @@ func (x *fnv) modelWrites(fo *types.Func) []string {
 		return []string{"CTX"}
 	case "(*sync.Mutex).Lock", "(*sync.Mutex).Unlock":
 		return []string{"LOCK"}
+	case "(*sync.Once).Do":
+		return []string{"ONCE"}
 	case "errors.As":
 		return []string{"*"}
 	}
@@ -392,3 +395,69 @@ func (x *fnv) modelErrorsAs(s *State, args []Value, call *ast.CallExpr) ([]Value
 	x.h.StorePtr(s, T, tptr.Term, x.h.iteValue(found, val, cur))
 	return []Value{{T: types.Typ[types.Bool], Term: found}}, true
 }
+
+// preModelCall models library calls whose arguments cannot be evaluated as ordinary values: atomic operations on
+// a struct field (&x.f) and sync.Once.Do with a function literal.
+func (x *fnv) preModelCall(s *State, fo *types.Func, call *ast.CallExpr) ([]Value, bool) {
+	c := x.c
+	full := fo.FullName()
+	switch full {
+	case "sync/atomic.AddUint32", "sync/atomic.AddInt32", "sync/atomic.AddInt64", "sync/atomic.AddUint64",
+		"sync/atomic.LoadUint32", "sync/atomic.LoadInt32", "sync/atomic.LoadInt64", "sync/atomic.LoadUint64",
+		"sync/atomic.StoreUint32", "sync/atomic.StoreInt32", "sync/atomic.StoreInt64", "sync/atomic.StoreUint64":
+		u, ok := ast.Unparen(call.Args[0]).(*ast.UnaryExpr)
+		if !ok || u.Op != token.AND {
+			return nil, false
+		}
+		if _, ok := ast.Unparen(u.X).(*ast.SelectorExpr); !ok {
+			return nil, false
+		}
+		x.p.noteModel("sync/atomic on a struct field: an indivisible read-modify-write of that field (no interleaving is enumerated)")
+		l := x.lvalue(s, u.X)
+		cur := x.loadLoc(s, l)
+		switch {
+		case strings.Contains(full, ".Add"):
+			d := x.eval(s, call.Args[1])
+			nv := Value{T: cur.T, Term: c.Add(cur.Term, d.Term)}
+			x.storeLoc(s, l, nv)
+			return []Value{nv}, true
+		case strings.Contains(full, ".Load"):
+			return []Value{cur}, true
+		default:
+			v := x.eval(s, call.Args[1])
+			x.storeLoc(s, l, x.coerce(s, v, cur.T))
+			return nil, true
+		}
+	case "(*sync.Once).Do":
+		lit, ok := ast.Unparen(call.Args[0]).(*ast.FuncLit)
+		if !ok {
+			return nil, false
+		}
+		sel := ast.Unparen(call.Fun).(*ast.SelectorExpr)
+		fsel, ok := ast.Unparen(sel.X).(*ast.SelectorExpr)
+		if !ok {
+			return nil, false
+		}
+		owner := x.eval(s, fsel.X)
+		pt, ok := owner.T.Underlying().(*types.Pointer)
+		if !ok {
+			return nil, false
+		}
+		x.p.noteModel("sync.Once: ghost done bit per Once field; Do(f) runs f exactly when the bit is clear and sets it (concurrent callers are not enumerated)")
+		x.safe(s, "nil", c.Not(c.Eq(owner.Term, c.Int(0))), call.Pos())
+		addr := x.muAddr(s, pt.Elem(), fsel.Sel.Name, owner.Term)
+		m := x.h.region(s, onceRegionName, 1, SBool)
+		done := c.Read(m, addr, nil)
+		first := s.Clone()
+		first.Assume(c.Not(done))
+		first.mem[onceRegionName] = c.Store(first.mem[onceRegionName], addr, nil, c.True())
+		x.inlineLit(first, lit, nil, call.Pos())
+		again := s.Clone()
+		again.Assume(done)
+		*s = *x.h.Merge([]*State{first, again})
+		return nil, true
+	}
+	return nil, false
+}
+
+const onceRegionName = "ONCE"
